@@ -90,6 +90,26 @@ def generate(repo):
                "Definition mean_file_name (file_name_base : name) : name :=\n  (%s)%%list.\n" % " ++ ".join(pieces))
     segs.append(names[0])
 
+    # SampleList.save: [_ensure_proper_sample_list_ending(...), (optionally: the master unlinks a
+    # stale mean file when overwrite is set), the save loop].  The optional statement (present
+    # since the fix "SampleList.save left a stale mean file ...") becomes a flag of the model.
+    sd = T.find_def(tree, "save", "SampleList")
+    sb = [st for st in T.strip_doc(sd.body)]
+    want_unlink = ("with ensure_all_tasks_succeed(self.comm):\n    if overwrite and self.MPI_master:\n"
+                   "        pathlib.Path(%s).unlink(missing_ok=True)" % names[0])
+    if len(sb) == 3 and ast.unparse(sb[1]) == want_unlink:
+        flag = "true"
+    elif len(sb) == 2:
+        flag = "false"
+    else:
+        raise TranslationError("SampleList.save: unexpected statements: " + ast.unparse(sd)[:600])
+    if not (isinstance(sb[0], ast.Expr) and isinstance(sb[0].value, ast.Call) and _is_name_call(sb[0].value, "_ensure_proper_sample_list_ending")
+            and isinstance(sb[-1], ast.With)):
+        raise TranslationError("SampleList.save: unexpected shape")
+    out.append(T.comment("SampleList.save, between the ending check and the save loop:\n" + (ast.unparse(sb[1]) if flag == "true" else "(nothing)")) +
+               "Definition plain_save_unlinks_mean : bool := %s.\n" % flag)
+    segs.append(ast.unparse(sd))
+
     # _list_local_sample_files: the regular expression and the index extraction
     fd = T.find_def(tree, "_list_local_sample_files", "SampleListBase")
     ms = _calls(fd, lambda n: isinstance(n.func, ast.Attribute) and isinstance(n.func.value, ast.Name)
